@@ -21,7 +21,7 @@ CLAIMED = {
             'C05_refusal_is_a_noop_anywhere_in_a_history (Rocq); K2 inserts refusals at every position of histories with modified data.',
             'proof over the model + history correspondence'),
     'C06': ('Theorems C06_abort_before_vetoes / C06_abort_after_panics / C06_after_stage_only_after_success / '
-            'C06_refused_runs_no_later_hook (Rocq); K2 aborts at every around position, kind and stage, typed and dynamic.',
+            'C06_refused_runs_no_later_hook (Rocq); K2 aborts at every around position, kind and stage, typed and dynamic; K4 checks the abort macros that build the aborts.',
             'proof over the model + abort matrix on compiled machines'),
     'C07': ('Theorems C07_sources_and_targets_resolve / C07_graph_is_declared_relation / C07_substate_of_exactly_containing_superstates '
             '(Rocq, induction on the forest, no depth bound); K1 verdicts + K2 reachable matrix.',
@@ -40,7 +40,7 @@ CLAIMED = {
             'set/mutate/read/transition sequences with several data states per machine.',
             'proof over the model + accessor sequences on compiled machines'),
     'C16': ('Theorems C16_hooks_see_the_machines_context_and_the_callers_payload / C16_transition_carries_the_context / '
-            'C16_context_conserved_by_every_operation / C16_context_dropped_exactly_once_over_a_history (Rocq); K2 uses drop-counting context and payload values with identities.',
+            'C16_context_conserved_by_every_operation / C16_context_dropped_exactly_once_over_a_history (Rocq); K2 uses drop-counting, Clone-tracking context and payload values with identities in the walk, refuse, conv, abandon and around families.',
             'proof over the model + drop accounting on compiled machines'),
     'C02': ('Theorems C02_method_exists_iff_transition_applies / C02_methods_are_the_edges_of_the_event / C02_new_only_on_initial_state / '
             'C02_infallible_accessors_on_own_state_only / C02_no_method_through_a_superstate_bound (Rocq) about the inherent methods each generated state impl carries. PARTIAL: '
@@ -82,8 +82,9 @@ CLAIMED = {
             'pool is compiled; every variant that compiles is run against the model of the renamed definition. The generic-parameter '
             'capture is a recorded known finding.',
             'proof over the model (equivariance of front end, code generator and run-time semantics; refutation witness) + adversarial renaming through rustc'),
-    'C19': ('Theorems C19_outcomes_of_handle / C19_poisoned_wrapper_is_unavailable / C19_completed_dispatch_stays_in_a_declared_state '
-            '(Rocq, all budgets); K2 panics every hook and drops the async future at every suspension point, then tries every public op.',
+    'C19': ('Theorems C19_outcomes_of_handle / C19_poisoned_wrapper_is_unavailable / C19_dropped_handle_future_poisons_or_is_the_complete_call / '
+            'C19_future_dropped_before_its_first_poll_has_no_effect / C19_completed_dispatch_stays_in_a_declared_state (Rocq, all budgets); K2 panics '
+            'every hook and drops the async future at every suspension point and before its first poll, then tries every public op.',
             'proof over the model + fault enumeration on compiled machines'),
 }
 
